@@ -119,6 +119,8 @@ def oracle(c, obs):
             return "message %d: a specification-conformant peer (x/crypto, Control-Salt keys, counter nonce) decrypts %s, sent %s" % (i, f.get("r%d" % i, "?")[:40], m[:40])
         if f.get("d%d" % i) != m:
             return "message %d: hc's peer session decrypts %s, sent %s" % (i, f.get("d%d" % i, "?")[:40], m[:40])
+    if "shortreads" in f:
+        return "a receiver whose reader delivers less than it is asked for (as sockets and pipes do) does not get the message: " + f["shortreads"].replace("-", " ")
     if "stream" in f:
         return "the messages back to back in ONE reader, decrypted by successive Decrypt calls, do not come out as sent (%s)" % f["stream"]
     return None
